@@ -132,9 +132,15 @@ def rule_factor_and_composition(chk, tf: TestFacts, rules):
                 kind = "dir" if name == "kaplan_markov" else "inv"
             a = X.args[0]
             f = a if kind == "inv" else 1 / a
-            want = spec["f"](bool(fin))
-            res = sp.cancel(sp.together(f - want))
-            ok = res == 0 or is_zero(f - want)
+            # a history that does not branch on np.isfinite(N) ("any") claims one factor for both regimes: it has to equal the
+            # published factor of *each* (only tests whose published factor does not involve N can)
+            wants = [spec["f"](True), spec["f"](False)] if fin is None else [spec["f"](bool(fin))]
+            ok, res, want = True, sp.Integer(0), wants[0]
+            for w_ in wants:
+                r_ = sp.cancel(sp.together(f - w_))
+                if not (r_ == 0 or is_zero(f - w_)):
+                    ok, res, want = False, r_, w_
+                    break
             chk.ob(rules["identity"], W(name), f"factor[{key_row}]", ok,
                    f"factor equals the published one ({spec['text']})", node=tf.an.ret,
                    extracted=sp.sstr(f)[:300], oracle=sp.sstr(want)[:300], residue=sp.sstr(res)[:200] if not ok else "0")
@@ -152,6 +158,9 @@ def _freeze(e):
         if scan_name(sub) in ("SX", "STOT"):
             repl[sub] = S("_past_" + str(len(repl)))
     return e.xreplace(repl), repl
+
+
+from .symx import show as _show  # noqa: E402
 
 
 def rule_unit_mean(chk, tf: TestFacts, rule):
@@ -174,21 +183,25 @@ def rule_unit_mean(chk, tf: TestFacts, rule):
         Xi = [s for s in inner if not any(scan_name(q) == "np.cumprod" for q in sp.preorder_traversal(s.args[0]))][0]
         a = Xi.args[0]
         f = 1 / a if (kind == "dir" or (kind is None and name == "kaplan_markov")) else a
-        m = spec["mean"](bool(fin))
         sh = spec["shift"]
-        both = sp.Tuple(f, m)
-        frozen, repl = _freeze(both)
-        f_, m_ = frozen[0], frozen[1]
-        d2 = sp.diff(f_, x, 2)
-        affine = is_zero(d2)
-        at_mean = f_.subs(x, m_ - sh)
-        unit = is_zero(at_mean - 1)
+        means = [spec["mean"](True), spec["mean"](False)] if fin is None else [spec["mean"](bool(fin))]
+        unit, affine, m, at_mean, d2 = True, True, means[0], sp.Integer(1), sp.Integer(0)
+        for m_cand in means:  # "any": the same factor must have unit mean in both regimes
+            both = sp.Tuple(f, m_cand)
+            frozen, repl = _freeze(both)
+            f_, m_ = frozen[0], frozen[1]
+            d2_ = sp.diff(f_, x, 2)
+            at_ = f_.subs(x, m_ - sh)
+            if not is_zero(d2_):
+                affine, d2 = False, d2_
+            if not is_zero(at_ - 1):
+                unit, m, at_mean = False, m_cand, at_
         chk.ob(rule, W(name), f"affine[{key_row}]", affine,
                "the factor is affine in the current draw (so E[f(X)|past] = f(E[X|past]))", node=tf.an.ret,
-               factor=sp.sstr(f)[:300], d2=sp.sstr(sp.simplify(d2))[:120] if not affine else "0")
+               factor=sp.sstr(f)[:300], d2=_show(d2, 120) if not affine else "0")
         chk.ob(rule, W(name), f"unit-at-null-mean[{key_row}]", unit,
                "the factor equals 1 when the draw equals the null conditional mean", node=tf.an.ret,
-               null_mean=sp.sstr(m)[:200], value=sp.sstr(sp.simplify(at_mean))[:200] if not unit else "1")
+               null_mean=sp.sstr(m)[:200], value=_show(at_mean, 200) if not unit else "1")
 
 
 # ---------------------------------------------------------------------------
